@@ -58,7 +58,7 @@ class Walk:
         fifo = []          # queued commands in send order: {"ev": toks, "handle": h, "step": i} or {"shutdown": True}
         parked = {}        # client -> toks of the parked call
         for st in self.case.steps:
-            if st.kind in ("ack", "pure"):
+            if st.kind in ("ack", "pure", "locks"):
                 continue
             if st.out.startswith("disabled") or st.out.startswith("hang") or not st.snap_text:
                 yield st, pre, pre, fifo, None
@@ -163,13 +163,13 @@ def mon_C02(case):
 
 
 def mon_C04(case):
-    deleted_at = {}   # key -> step of the last delete() call since the last put was issued
+    deleted_ids = {}  # id of an incarnation for which delete() has returned -> step of that call
     for st, pre, post, fifo, ex in Walk(case):
         if post is pre:
             continue
         t, o = st.toks, st.out.split()
-        if st.kind == "delete" and o and o[0] in ("ack", "parked") and int(t[2]) in pre["store"]:
-            deleted_at[int(t[2])] = st.index
+        if st.kind == "delete" and o and o[0] in ("ack", "parked", "err") and int(t[2]) in pre["store"] and not pre["shut"]:
+            deleted_ids[pre["store"][int(t[2])]["id"]] = st.index
         if st.kind == "worker" and ex and "ev" in ex and ex["ev"][0] == "delete" and o[0] == "worked" and o[1] == "Delete":
             k = int(ex["ev"][2])
             status = o[2]
@@ -188,14 +188,11 @@ def mon_C04(case):
                     yield finding("C04", st, f"delete of absent key {k} answered {status}", "C04/absent-key-not-rejected")
                 if (post["store"], post["kw"], post["wu"], post["ttl"]) != (pre["store"], pre["kw"], pre["wu"], pre["ttl"]):
                     yield finding("C04", st, f"delete of absent key {k} changed the cache", "C04/absent-delete-changed-state")
-        if st.kind in ("put", "putw", "putttl", "putwttl", "upsert") and o and o[0] in ("ack", "parked"):
-            # a fresh incarnation may follow only after the old one is gone (the key was absent at the call)
-            if int(t[2]) not in pre["store"]:
-                deleted_at.pop(int(t[2]), None)
         if st.kind == "get" and o and o[0] == "value" and len(o) > 1 and o[1] != "-":
             k = int(t[1])
-            if k in deleted_at:
-                yield finding("C04", st, f"get({k}) returned {o[1]} after delete({k}) had returned", "C04/read-after-delete")
+            e = pre["store"].get(k)
+            if e is not None and e["id"] in deleted_ids:
+                yield finding("C04", st, f"get({k}) returned {o[1]} of the incarnation (id {e['id']}) whose delete({k}) had returned at step {deleted_ids[e['id']]}", "C04/read-after-delete")
 
 
 def quiescent(post):
@@ -802,10 +799,26 @@ _SEQ = {
 }
 
 
+PERSISTENT = ("C05", "C15", "C16")   # state predicates: once false they stay false; only the first step of a case names the cause
+
+
+def _first_only(gen):
+    seen = set()
+    for f in gen:
+        base = f["signature"].split("/after=")[0]
+        if base in seen:
+            continue
+        seen.add(base)
+        yield f
+
+
 def _dispatch(pid):
     def run(case):
         if case.cfg_line:
-            yield from _SEQ[pid](case)
+            if pid in PERSISTENT:
+                yield from _first_only(_SEQ[pid](case))
+            else:
+                yield from _SEQ[pid](case)
         elif pid == "C12":
             yield from mon_C12_ack(case)
         elif pid == "C14":
